@@ -22,7 +22,9 @@ var (
 	CWidget = &sim.Kind{Group: "apps.ex", Version: "v1", Resource: "cwidgets", Kind: "CWidget", Namespaced: false}
 	Other   = &sim.Kind{Group: "", Version: "v1", Resource: "others", Kind: "Other", Namespaced: true}
 	Gadget  = &sim.Kind{Group: "apps.ex", Version: "v1", Resource: "gadgets", Kind: "Gadget", Namespaced: true, StatusSub: true}
-	Kinds   = []*sim.Kind{Thing, NoThing, CThing, Leaf, Widget, CWidget, Other, Gadget}
+	// ThingBeta: the parent kind is served in a second, older version as well (same storage; listed FIRST in discovery)
+	ThingBeta = &sim.Kind{Group: "ex.io", Version: "v1beta1", Resource: "things", Kind: "Thing", Namespaced: true, StatusSub: true}
+	Kinds     = []*sim.Kind{ThingBeta, Thing, NoThing, CThing, Leaf, Widget, CWidget, Other, Gadget}
 )
 
 const LastApplied = "metacontroller.k8s.io/last-applied-configuration"
